@@ -265,7 +265,7 @@ PROPS["C10"] = {
                "distribution over segments is not part of C10); reversed ranges start > end are only required not to panic and not to change anything",
     "assumptions": [
         "rand 0.9.0 sampling algorithms run unmodified on the symbolic generator",
-    ],
+        "uniform crossover's 'every position independently' is checked in the pinned form 'position i is decided by the top bit of its own random word i, in order' (rand 0.9.0 bool sampling): an implementation that spends the stream differently but still independently (e.g. 64 positions per word with a fresh word every 64 positions) would be REPORTED and has to be judged by hand; the pinned form is what lets a bounded check (L <= 4) see dependence that only shows beyond 64 positions (seed C10-c)"],
     "cover_replay_tests": {"two_point": "c10::two_point_segments_reachable"},
 }
 
